@@ -176,22 +176,30 @@ func parseTagFilterRange(filter string) func(int64, string) bool {
 		return nil // Not a representable number, treat as regexp
 	}
 	scaledValue, unit := measurement.Scale(v, ranges[0][2], ranges[0][2])
+	// scale converts a tag value to the unit of the range. A tag whose unit
+	// is unknown cannot be converted to a known unit: measurement.Scale would
+	// pass its value through unchanged, relabeled with the unit of the range.
+	knownRangeUnit := knownUnit(ranges[0][2])
+	scale := func(v int64, u string) (float64, bool) {
+		sv, su := measurement.Scale(v, u, unit)
+		return sv, su == unit && (!knownRangeUnit || knownUnit(u))
+	}
 	if len(ranges) == 1 {
 		switch match := ranges[0][0]; filter {
 		case match:
 			return func(v int64, u string) bool {
-				sv, su := measurement.Scale(v, u, unit)
-				return su == unit && sv == scaledValue
+				sv, ok := scale(v, u)
+				return ok && sv == scaledValue
 			}
 		case match + ":":
 			return func(v int64, u string) bool {
-				sv, su := measurement.Scale(v, u, unit)
-				return su == unit && sv >= scaledValue
+				sv, ok := scale(v, u)
+				return ok && sv >= scaledValue
 			}
 		case ":" + match:
 			return func(v int64, u string) bool {
-				sv, su := measurement.Scale(v, u, unit)
-				return su == unit && sv <= scaledValue
+				sv, ok := scale(v, u)
+				return ok && sv <= scaledValue
 			}
 		}
 		return nil
@@ -207,9 +215,15 @@ func parseTagFilterRange(filter string) func(int64, string) bool {
 		return nil
 	}
 	return func(v int64, u string) bool {
-		sv, su := measurement.Scale(v, u, unit)
-		return su == unit && sv >= scaledValue && sv <= scaledValue2
+		sv, ok := scale(v, u)
+		return ok && sv >= scaledValue && sv <= scaledValue2
 	}
+}
+
+// knownUnit reports whether unit is one that measurement.Scale can convert.
+func knownUnit(unit string) bool {
+	_, u := measurement.Scale(1, unit, "auto")
+	return u != ""
 }
 
 func warnNoMatches(match bool, option string, ui plugin.UI) {
